@@ -32,11 +32,12 @@ def outerLaws (IL : MLaws I) (keysOf : Route → Option (List K))
   Repr := LRepr IL keysOf
   sat := sat
   wf := lWf IL keysOf
+  okIns := IL.okIns
   sat_congr := sat_congr
   repr_empty := lrepr_empty IL keysOf
   repr_congr := fun s L L' h hs hm => lrepr_congr IL keysOf s L L' h hs hm
   len_zero := fun s L h h0 => lrepr_len_zero IL keysOf s L h h0
-  repr_insert := fun s L r h hU => lrepr_insert IL keysOf s L r h hU
+  repr_insert := fun s L r h hU hok => lrepr_insert IL keysOf s L r h hU hok
   repr_remove := fun s L id h hU => lrepr_remove IL keysOf s L id h hU
   remove_some := fun s L id r h hU hr hwf hid => lremove_some IL keysOf s L id r h hU hr hwf hid
   remove_none := fun s L id h hno => lremove_none IL keysOf s L id h hno
